@@ -3,7 +3,10 @@
 set -e
 cd "$(dirname "$0")"
 export CARGO_NET_OFFLINE=true
+# tie D: regenerate the table-shaped model parts from the repository's source (the checks do this again on every run)
+python3 tools/rs2lean.py --repo "${VERIF_REPO_DIR:-/repo}" --out lean/AscentVerif/Generated || echo "setup: rs2lean could not translate the current source (the checks will report it)"
 (cd lean && lake build AscentVerif AscentVerif.Audit driver)
+(cd lean && lake build AscentVerif.Props.TieD) || echo "setup: Props/TieD.lean does not build against the current source (the checks will report it)"
 python3 - <<'PY'
 import sys, os
 sys.path.insert(0, os.path.join(os.getcwd(), "tools"))
